@@ -147,6 +147,25 @@ pub fn check_state(cx: &mut CaseCx, s: &pp::Server, path: &[u8], c: &Ctx, deep: 
       }
       cx.count("imports_checked", 1);
     }
+    // through the public evaluation interface as well: a follower that answered for a tag just before it
+    // imports the post-puncture state must refuse that tag right afterwards (no per-tag value may survive)
+    let (probe, _r) = pp::Client::blind(b"c11 probe");
+    for &x in path.iter().rev().take(3) {
+      let mut follower = c.initial.clone();
+      cx.eval();
+      let before = guard(|| follower.eval(&probe, x, false).is_ok());
+      if import_into(&mut follower, &bytes).is_err() {
+        continue;
+      }
+      match guard(|| follower.eval(&probe, x, false).is_ok()) {
+        Ok(false) => cx.count("follower_refuses_after_import", 1),
+        Ok(true) => {
+          cx.viol("C11/importer-evaluates-punctured", format!("a follower that evaluated tag {} (ok={:?}) and then imported the state in which {} is punctured still answers for it through Server::eval", x, before, x), d(json!({"input": x, "via": "Server::eval"})));
+          return;
+        }
+        Err(p) => cx.viol("C11/eval-panicked", p, d(json!({"input": x}))),
+      }
+    }
   }
 }
 
